@@ -5,14 +5,19 @@ from vlib.framework import Family
 from vlib import coqlit as L
 
 PID = "C03"
-PROP_FILES = []
+PROP_FILES = ["Prop"]
 ALLOWED_AXIOMS = []
-RULE = ("histories of next/take/peek/skip/limit/copy over a pool of integer Streams (finite lists and periodic "
-        "Stream(a, b, ..)); counts from None, ints (negative, 0, within, equal, beyond), floats (x.4, x.5, negative), "
-        "inf, -inf, nan; all pairs exhaustively + seeded random longer histories; a history is cut before an operation "
-        "that would not terminate (take(inf) of an endless stream) and never touches a stream again after skip(n) "
-        "with a non-roundable n (the error is raised lazily inside the generator); non-trivial = a copy exists and "
-        "both it and its origin are consumed afterwards, or a count beyond the remaining length is used")
+RULE = ("histories of next/take/peek/skip/limit/copy/append/map/filter/thub/Stream(hub)/tee over a pool of integer "
+        "Streams (finite lists and periodic Stream(a, b, ..)); counts from None, ints (negative, 0, within, equal, "
+        "beyond), floats (x.4, x.5, halves, negative), inf, -inf, nan; map/filter functions from {+c, *c, even, >c}; "
+        "all pairs of operations exhaustively on the pools [1,2,3], [], (1,2) (quick: a seeded 30 %; thorough: all, plus "
+        "all triples over 6 counts), seeded samples of length 3-4 and random histories of length 5-25 over 1-3 random "
+        "sources. Exclusions (stated, enforced by the generator): a history is cut before an operation that does not "
+        "terminate (take(inf) of an endless stream, a filter that rejects a whole period: detected by a dry run with a "
+        "pull budget); an object is never touched again after skip(n) with a non-roundable n (None, inf, nan: the error "
+        "is raised lazily inside the generator) nor after its iterator was handed to thub()/tee() (shared iterator); "
+        "thub(hub without uses left) is not generated (IndexError plus a RecursionError inside __del__). "
+        "Non-trivial = a copy/tee output/hub use exists and both it and its origin are consumed afterwards")
 EXHAUSTIVE = {"quick": False, "thorough": False}
 trusted_base = ["stream items are Python ints; counts are ints or exactly representable floats"]
 ASSUMPTIONS = ["CPython itertools.tee / islice / chain / cycle and generator semantics as documented"]
@@ -20,6 +25,7 @@ ASSUMPTIONS = ["CPython itertools.tee / islice / chain / cycle and generator sem
 BUDGET = 3000
 COUNTS = [["none"], ["int", -1], ["int", 0], ["int", 1], ["int", 2], ["int", 3], ["int", 5],
           ["flt", 12, 5], ["flt", 5, 2], ["flt", 3, 2], ["flt", -5, 2], ["inf"], ["ninf"], ["nan"]]
+COUNTS3 = [["none"], ["int", 0], ["int", 2], ["int", 5], ["flt", 5, 2], ["inf"]]
 POOL = [["fin", [1, 2, 3]], ["fin", []], ["cyc", [1, 2]]]
 
 
@@ -73,7 +79,7 @@ def _inplace(objs, s, r):
   return ["raise", "NotSelf"]
 
 
-def _step(objs, op):
+def _step(objs, op, guard, box):
   import audiolazy
   k = op[0]
   if k == "thubval":
@@ -90,7 +96,11 @@ def _step(objs, op):
   if k in ("skip", "limit"):
     return _inplace(objs, s, getattr(s, k)(pycount(op[2])))
   if k == "append":
-    return _inplace(objs, s, s.append(list(op[2][1])) if op[2][0] == "fin" else s.append(*op[2][1]))
+    if op[2][0] == "fin":
+      return _inplace(objs, s, s.append(list(op[2][1])))
+    if guard:   # dry run of the generator: same values, but a runaway consumer is stopped
+      return _inplace(objs, s, s.append(_guarded(list(op[2][1]), box)))
+    return _inplace(objs, s, s.append(*op[2][1]))
   if k == "map":
     return _inplace(objs, s, s.map(FUNS[op[2][0]](op[2][1])))
   if k == "filter":
@@ -120,7 +130,7 @@ def _exec(case, guard):
   for op in case["ops"]:
     box[0] = BUDGET
     try:
-      o = _step(objs, op)
+      o = _step(objs, op, guard, box)
     except _Budget:
       o = ["diverge"]
     except Exception as e:
@@ -169,6 +179,8 @@ def advance(op, kinds):
   if k in ("thubval", "teeval", "next"):
     return kinds
   i = op[1]; kd = kinds[i]; kinds = list(kinds)
+  if k == "tee" and op[2] == 0:
+    return kinds                                   # itertools.tee(x, 0) does not even call iter(x)
   hub = kd[0] == "h"
   if hub and kd[1] == 0:
     return kinds                                   # IndexError, nothing changes
@@ -228,6 +240,10 @@ def gen_hist(tier, rng):
       if tier == "quick" and rng.random() > 0.3:
         continue
       yield finish([p], ops, ["exh2", p[0]])
+  if tier != "quick":   # all triples over a reduced set of counts
+    for p in POOL:
+      for ops in histories(3, [("s",)], COUNTS3):
+        yield finish([p], ops, ["exh3", p[0]])
   # sampled triples / quadruples on the same pools
   n = 2000 if tier == "quick" else 40000
   for _ in range(n):
@@ -302,15 +318,25 @@ def lit_hist(c, o):
 
 
 def nontrivial_hist(c, o):
-  copies = {}
+  """two objects of one family (origin, copies, tee outputs, hub uses) are both consumed after the split"""
+  root = {}
   for op, ob in zip(c["ops"], o["outs"]):
-    if op[0] == "copy" and ob[0] == "new":
-      copies[ob[1]] = op[1]
-  consumed = set(op[1] for op in c["ops"] if op[0] in ("next", "take"))
-  return any(a in consumed and b in consumed for a, b in copies.items())
+    if op[0] in ("thubval", "teeval"):
+      continue
+    r = root.get(op[1], op[1])
+    if ob[0] == "new":
+      root[ob[1]] = r
+    elif ob[0] == "news":
+      for k in range(ob[2]):
+        root[ob[1] + k] = r
+  fam = {}
+  for op in c["ops"]:
+    if op[0] in ("next", "take"):
+      fam.setdefault(root.get(op[1], op[1]), set()).add(op[1])
+  return any(len(v) >= 2 for v in fam.values())
 
 
-IMPORTS = "From AL Require Import C03.Spec C03.Check."
+IMPORTS = "From AL Require Import C03.Spec C03.Model C03.Check."
 FAMILIES = {
   "hist": Family("hist", IMPORTS, "hcase", "corr_hist", "holds_hist", gen_hist, run_hist, lit_hist, nontrivial_hist),
 }
